@@ -47,7 +47,7 @@ Proof.
   - constructor; [intros []|constructor].
   - constructor.
     + intros H. apply in_app_or in H. destruct H as [H|[H|[]]]; [auto|].
-      apply Hx; left; assumption.
+      apply Hx; left; congruence.
     + apply IH. intros H; apply Hx; right; assumption.
 Qed.
 
@@ -223,7 +223,8 @@ Proof.
     apply bind_ok in H. destruct H as [name [Hname H]].
     apply bind_ok in H. destruct H as [dup [Hdup H]].
     destruct dup; [exfalso; eapply err_from_not_ok; eassumption|].
-    rewrite Hd, skipn_app, Hs, skipn_all, Nat.sub_diag in Hdup. cbn [app skipn] in Hdup.
+    rewrite Hd, skipn_app, Hs, skipn_all in Hdup.
+    replace (length base - length base)%nat with 0%nat in Hdup by lia. cbn [app skipn] in Hdup.
     pose proof (any_same_name_false _ _ _ _ _ Hn Hdup) as Hfresh.
     set (a := {| ad_ns_idx := ns_idx; ad_local := ta_local t; ad_value := ta_value t;
                  ad_range := ta_range t; ad_qname_len := ta_qname_len t;
@@ -234,7 +235,7 @@ Proof.
     destruct (IH base (acc ++ [a]) d1 d' (names ++ [name])) as [new [names' K]]; auto.
     + unfold d1; cbn [d_attrs set_attrs]. rewrite Hd, app_assoc. reflexivity.
     + apply Forall2_snoc.
-      * eapply Forall2_imp; [|exact Hn]. intros x n Hx. eapply named_ext; eauto.
+      * eapply Forall2_imp; [|exact Hn]. intros x n Hx. apply (named_ext text d d1); auto.
       * exact Hname.
     + apply NoDup_snoc; assumption.
     + destruct K as [K1 [K2 [K3 [K4 [K5 [K6 [K7 K8]]]]]]].
@@ -245,12 +246,15 @@ Proof.
       * rewrite K4; reflexivity.
       * constructor; [repeat split|assumption].
       * constructor.
-        -- unfold ns_resolved. cbn [ad_ns_idx a].
-           destruct (bytes_eqb (slice_bytes text (ta_prefix t)) ns_xml_prefix); [congruence|].
-           destruct (slice_bytes text (ta_prefix t)); [congruence|exact Hns].
-        -- eapply Forall2_imp; [|exact K6]. intros x y Hxy. eapply ns_resolved_ext; eauto.
+        -- unfold ns_resolved. change (ad_ns_idx a) with ns_idx. revert Hns.
+           destruct (bytes_eqb (slice_bytes text (ta_prefix t)) ns_xml_prefix);
+             [intros Hns; inversion Hns; reflexivity|].
+           destruct (slice_bytes text (ta_prefix t));
+             [intros Hns; inversion Hns; reflexivity|intros Hns; exact Hns].
+        -- eapply Forall2_imp; [|exact K6]. intros x y Hxy.
+           apply (ns_resolved_ext text nss d d1); auto.
       * constructor; [exact Hname|].
-        eapply Forall2_imp; [|exact K7]. intros x n Hx. eapply (named_ext text d1 d); eauto.
+        eapply Forall2_imp; [|exact K7]. intros x n Hx. apply (named_ext text d1 d); auto.
       * rewrite <- app_assoc in K8. exact K8.
 Qed.
 
@@ -286,17 +290,23 @@ Proof.
     apply bind_ok in H. destruct H as [r0 [Hr H]].
     apply short_range_ok in Hr. inversion H; subst; clear H.
     cbn [c_doc c_cur_attrs set_doc set_cur_attrs].
-    destruct (resolve_attrs_loop_spec text nss _ _ (d_attrs (c_doc c)) [] (c_doc c) d [])
-      with (5 := Hl) as [new [names K]].
-    + unfold len_N. lia.
-    + rewrite app_nil_r; reflexivity.
-    + constructor.
-    + constructor.
+    assert (K : exists new names',
+      d_attrs d = d_attrs (c_doc c) ++ [] ++ new /\
+      d_nodes d = d_nodes (c_doc c) /\ d_ns_values d = d_ns_values (c_doc c) /\
+      d_ns_tree d = d_ns_tree (c_doc c) /\
+      Forall2 fields_copied (t :: l) new /\ Forall2 (ns_resolved text nss (c_doc c)) (t :: l) new /\
+      Forall2 (named text (c_doc c)) new names' /\ NoDup ([] ++ names')).
+    { apply (resolve_attrs_loop_spec text nss (len_N (d_attrs (c_doc c))) (t :: l)
+               (d_attrs (c_doc c)) [] (c_doc c) d []); auto.
+      - unfold len_N. lia.
+      - rewrite app_nil_r; reflexivity.
+      - constructor. }
+    destruct K as [new [names K]].
     + destruct K as [K1 [K2 [K3 [K4 [K5 [K6 [K7 K8]]]]]]]. cbn [app] in *.
       exists new, names. repeat split; auto.
       * eapply Forall2_imp; [|exact K6]. intros x y Hxy.
-        eapply (ns_resolved_ext text nss d (c_doc c)); eauto.
-      * eapply Forall2_imp; [|exact K7]. intros x n Hx. eapply named_ext; eauto.
+        apply (ns_resolved_ext text nss d (c_doc c)); auto.
+      * eapply Forall2_imp; [|exact K7]. intros x n Hx. apply (named_ext text (c_doc c) d); auto.
 Qed.
 
 Lemma fields_copied_maps : forall l new,
